@@ -190,10 +190,10 @@ unsafe fn cast<A, B>(a: A) -> B {
 """]
     harnesses = []
     for pfx in prefixes:
-        out.append("#[kani::proof]\nfn %s_rtproto_layout_selfcheck() {\n    unsafe {\n        %s\n    }\n}\n" % (pfx, asserts))
+        out.append("#[kani::proof]\npub(crate) fn %s_rtproto_layout_selfcheck() {\n    unsafe {\n        %s\n    }\n}\n" % (pfx, asserts))
         harnesses.append("%s_rtproto_layout_selfcheck" % pfx)
         for nm, (unwind, body) in bodies.items():
             h = "%s_rtproto_%s" % (pfx, nm)
             harnesses.append(h)
-            out.append("#[kani::proof]\n#[kani::unwind(%d)]\nfn %s() {\n    unsafe {%s\n    }\n}\n" % (unwind, h, body))
+            out.append("#[kani::proof]\n#[kani::unwind(%d)]\npub(crate) fn %s() {\n    unsafe {%s\n    }\n}\n" % (unwind, h, body))
     return "\n".join(out), statics, harnesses
